@@ -93,9 +93,51 @@ pub fn test_case(case: &MpcCase) -> Result<CaseInfo, Fail> {
     })
 }
 
+/// A curious output party marks registers that are no outputs in the share message it sends to the
+/// evaluator: what the honest parties send must still be confined to the output registers.
+pub fn test_curious(case: &MpcCase) -> Result<CaseInfo, Fail> {
+    use crate::adv::{AttackCase, Fault, Target, run_attack};
+    use crate::wire::{MsgMut, TreeMut};
+    let n = case.n();
+    let Some(curious) = case.p_out.iter().copied().find(|p| *p != case.p_eval) else { return Ok(CaseInfo::default()) };
+    let uniq: BTreeSet<usize> = case.circ.output_regs.iter().map(|r| *r as usize).collect();
+    let others: Vec<usize> = (0..case.circ.max_reg_count).filter(|r| !uniq.contains(r)).collect();
+    if others.is_empty() || !case.p_out.contains(&case.p_eval) {
+        return Ok(CaseInfo { classes: vec!["curious:not-applicable".into()], ..Default::default() });
+    }
+    let mut marks = vec![others[0], others[others.len() / 2], others[others.len() - 1]];
+    marks.dedup();
+    let faults = vec![Fault { target: Target::Label { label: "output wire shares".into(), occ: Some(0), to: Some(case.p_eval) }, mutation: MsgMut::Multi(marks.iter().map(|r| (vec![*r], TreeMut::ToggleOpt)).collect()) }];
+    let run = run_attack(&AttackCase { faults, ..AttackCase::honest(case.clone(), curious) }, &ExecCfg { record_probes: false, ..Default::default() });
+    let uniq: Vec<usize> = uniq.into_iter().collect();
+    let mut tampered = false;
+    for m in &run.res.msgs {
+        tampered |= m.tampered && m.consumed;
+        if m.from != curious && OUTPUT_LABELS.contains(&m.label.as_str()) {
+            if !case.p_out.contains(&m.to) {
+                return Err(Fail::new("C05|output-message-to-non-output-party|curious", format!("party {} is not in p_out but was sent {:?} by {} after party {curious} marked extra registers", m.to, m.label, m.from)));
+            }
+            let Some(v) = decode(m) else { continue };
+            let pos = some_positions(&v);
+            if pos.iter().any(|r| !uniq.contains(r)) {
+                return Err(Fail::new(
+                    "C05|values-for-non-output-wires|curious",
+                    format!("output party {curious} marked the registers {marks:?} (no outputs) in its share message to the evaluator; {:?} {}->{} then carries values at {:?}, output registers are {:?}", m.label, m.from, m.to, pos, uniq),
+                ));
+            }
+        }
+    }
+    Ok(CaseInfo {
+        nontrivial: tampered.then(|| hash_of(&(serde_json::to_string(case).unwrap(), "curious"))),
+        classes: vec![format!("curious:n={n}")],
+        sample: Some(json!({"curious_output_party": curious, "marked_registers": marks, "n": n, "p_eval": case.p_eval, "p_out": case.p_out})),
+        ..Default::default()
+    })
+}
+
 pub fn run(tier: Tier, seed: u64) -> i32 {
     let ctx = Ctx::new("C05", tier, seed, "exploration");
-    ctx.set_rule("proptest: circuits with register reuse x n in 2..4 x every p_eval x every non-empty p_out subset; invariant over the recorded traffic: a party outside p_out returns [], is never addressed an 'output wire shares' or 'lambda' message, the last message on every link towards it is the final input-processing message, its inbox ends empty; for members of p_out the decoded output messages carry Some exactly at the set of unique output registers; lambda only from the evaluator. non-trivial = p_out is a strict subset of the parties; distinct by hash of the case");
+    ctx.set_rule("proptest: circuits with register reuse x n in 2..4 x every p_eval x every non-empty p_out subset; invariant over the recorded traffic: a party outside p_out returns [], is never addressed an 'output wire shares' or 'lambda' message, the last message on every link towards it is the final input-processing message, its inbox ends empty; for members of p_out the decoded output messages carry Some exactly at the set of unique output registers; lambda only from the evaluator; plus a curious output party that marks registers which are no outputs in the share message it sends to the evaluator: everything the honest parties send in the output phase stays confined to the output registers and to members of p_out. non-trivial = p_out is a strict subset of the parties; distinct by hash of the case");
     ctx.assume("leak detection is by label, position and decoded structure of the traffic, not information-theoretic");
     let cp = CaseParams { circ: CircParams { n_min: 2, n_max: 4, max_gates: 30, ..Default::default() }, all_scheds: false, caps: vec![0, 1], tmp: false };
     prop_search(&ctx, "c05", tier.pick(320, 12000), || gen_case(cp.clone()), |c| match test_case(c) {
@@ -105,6 +147,9 @@ pub fn run(tier: Tier, seed: u64) -> i32 {
         }
         r => r,
     });
+    if !ctx.stopped() {
+        prop_search(&ctx, "c05curious", tier.pick(160, 6000), || gen_case(cp.clone()), test_curious);
+    }
     if !ctx.stopped() {
         let wide = CaseParams { circ: CircParams::wide(2, 4), all_scheds: false, caps: vec![0], tmp: false };
         prop_search(&ctx, "c05wide", tier.pick(24, 1200), || gen_case(wide.clone()), |c| match test_case(c) {
@@ -119,5 +164,5 @@ pub fn run(tier: Tier, seed: u64) -> i32 {
 }
 
 pub fn replay(path: &str) -> i32 {
-    crate::fw::replay_case::<MpcCase, _>("C05", path, 3, test_case)
+    crate::fw::replay_case::<MpcCase, _>("C05", path, 3, |c| test_case(c).and_then(|i| test_curious(c).map(|_| i)))
 }
